@@ -130,6 +130,24 @@ class LinProver:
                 lo.append(x)
         elif atom == self.P:
             lo.append(Lin(1))
+        elif isinstance(atom, tuple) and atom and atom[0] == 'max' and len(atom) == 3:
+            lo.append(self.lin(atom[1]))
+            lo.append(self.lin(atom[2]))
+            for x, y in ((atom[1], atom[2]), (atom[2], atom[1])):
+                try:
+                    if self.ai.prove_le(self.st, y, x):
+                        hi.append(self.lin(x))      # max(x, y) = x when y <= x
+                except RecursionError:
+                    pass
+        elif isinstance(atom, tuple) and atom and atom[0] == 'min' and len(atom) == 3:
+            hi.append(self.lin(atom[1]))
+            hi.append(self.lin(atom[2]))
+            for x, y in ((atom[1], atom[2]), (atom[2], atom[1])):
+                try:
+                    if self.ai.prove_le(self.st, x, y):
+                        lo.append(self.lin(x))      # min(x, y) = x when x <= y
+                except RecursionError:
+                    pass
         elif isinstance(atom, tuple) and atom and atom[0] in ('Q', 'X'):
             lo.append(Lin(0)) if atom[0] == 'Q' else None
         else:
